@@ -378,4 +378,18 @@ for _p in ["C01", "C02", "C03", "C04", "C05", "C07", "C08", "C09", "C12", "C17",
     PROPS[_p]["engines"].append(leader(_p))
     PROPS[_p]["assumptions"].append(LEADER_NOTE)
 
-HOOK_COMMITS = ["dfecdf5", "9779dc0", "4292c91", "99b3530", "d0a2b1a", "e08c15a"]
+def follower(pid, nq=3000, nt=40000):
+    return {"engine": "follower", "driver": "leader-" + pid, "bin": "h2.test", "quick": ["-n", str(nq)], "thorough": ["-n", str(nt)]}
+
+FOLLOWER_NOTE = "follower engine: the real runFollower on one server (virtual time advanced past the heartbeat timeout so that the loop's own timer fires; requests of other servers and API calls go through the loop), stepped against SV.stepLeader's follower events (heartbeatTimeout / idle / rpc / calls refused); once the loop has made the server a candidate, passes of the real candidate loop follow"
+for _p in ["C07", "C12", "C14", "C17", "C18"]:
+    PROPS[_p]["engines"].append(follower(_p))
+    PROPS[_p]["assumptions"].append(FOLLOWER_NOTE)
+PROPS["C07"]["theorems"].append(T("SV.nonvoter_never_campaigns", "the stepped follower loop: a server that is not a voter of its latest configuration (non-voter, staging, removed, or without any configuration) never leaves the follower state by a heartbeat timeout, however often the timer fires"))
+PROPS["C14"]["theorems"].append(T("SV.nonvoter_never_campaigns", "a heartbeat timeout never makes a non-voter a candidate"))
+PROPS["C14"]["theorems"].append(T("SV.followerTimeout_forgets_leader", "a heartbeat timeout forgets the leader and leaves term, commit index and configuration as they were (the term moves only in a campaign, where SV.campaign_no_quorum_inert applies)"))
+PROPS["C18"]["theorems"].append(T("SV.followerTimeout_forgets_leader", "a follower that has lost contact for a heartbeat timeout stops naming a leader"))
+PROPS["C12"]["theorems"].append(T("SV.voter_campaigns", "a voter that knows its configuration does become a candidate when its heartbeat timer finds no recent contact: the timeout is never lost"))
+PROPS["C17"]["theorems"].append(T("SV.refused_without_leader", "a call that needs a leader, reaching a server whose leader loop is not running, is answered ErrNotLeader at once and leaves no trace: no write, no state change, nothing queued"))
+
+HOOK_COMMITS = ["dfecdf5", "9779dc0", "4292c91", "99b3530", "d0a2b1a", "e08c15a", "763d9c7"]
